@@ -42,7 +42,7 @@ def load_meta(d):
 
 def demo_file(d):
     for n in os.listdir(d):
-        if n.endswith("_test.go"):
+        if n.endswith("_test.go") or n.endswith("_test.go.txt"):
             return os.path.join(d, n)
     return None
 
